@@ -22,6 +22,7 @@ type vHTTPFault struct {
 	status int                      // != 0: answer with this status
 	raw    string                   // != "": answer with this body verbatim
 	errs   []map[string]interface{} // != nil: answer element 0 with these GraphQL errors
+	split  bool                     // with two errors: the second one comes with element 1 of the same batch (if there is one)
 	terr   bool                     // transport error
 }
 
@@ -86,7 +87,13 @@ func verifDo(req *http.Request) (*http.Response, error) {
 			}
 			return &http.Response{StatusCode: st, Body: &vBody{[]byte(f.raw)}}, nil
 		case f.errs != nil:
-			resps[0] = map[string]interface{}{"data": nil, "errors": f.errs}
+			if f.split && len(f.errs) == 2 && len(resps) >= 2 {
+				resps[0] = map[string]interface{}{"data": nil, "errors": f.errs[:1]}
+				resps[1] = map[string]interface{}{"data": nil, "errors": f.errs[1:]}
+				verifReach("two failed requests in one batch")
+			} else {
+				resps[0] = map[string]interface{}{"data": nil, "errors": f.errs}
+			}
 		}
 		if f.status != 0 {
 			b, _ := json.Marshal(resps)
@@ -246,6 +253,9 @@ func VerifServiceErrors() {
 	// which step fails: the root step (svc0) or the child step (svc1)
 	target := verifChoice("failing", 2)
 	vFault = &vHTTPFault{url: []string{"svc0", "svc1"}[target], call: 0, errs: errsDown}
+	if n == 2 && target == 1 && maxBatch > 1 {
+		vFault.split = verifChoice("split", 2) == 1
+	}
 	_, out := f.vPost(`{ getHumans { name phone } }`, nil, "")
 	got, _ := out["errors"].([]interface{})
 	verifAssert(len(got) >= n, "every downstream error reaches the client")
